@@ -3122,10 +3122,11 @@ EGLPNUM_TYPENAME_QSLIB_INTERFACE int EGLPNUM_TYPENAME_QSget_ranged_rows (
 		{
 			rowlist[i] = i;
 		}
-		rval = EGLPNUM_TYPENAME_ILLlib_getrows (p->lp, nrows, rowlist, rowcnt, rowbeg, rowind,
-													 rowval, rhs, sense, range, names);
-		CHECKRVALG (rval, CLEANUP);
 	}
+	/* without rows this hands back empty (NULL) arrays */
+	rval = EGLPNUM_TYPENAME_ILLlib_getrows (p->lp, nrows, rowlist, rowcnt, rowbeg, rowind,
+												 rowval, rhs, sense, range, names);
+	CHECKRVALG (rval, CLEANUP);
 
 CLEANUP:
 
@@ -3218,10 +3219,11 @@ EGLPNUM_TYPENAME_QSLIB_INTERFACE int EGLPNUM_TYPENAME_QSget_rows (
 		{
 			rowlist[i] = i;
 		}
-		rval = EGLPNUM_TYPENAME_ILLlib_getrows (p->lp, nrows, rowlist, rowcnt, rowbeg, rowind,
-													 rowval, rhs, sense, 0, names);
-		CHECKRVALG (rval, CLEANUP);
 	}
+	/* without rows this hands back empty (NULL) arrays */
+	rval = EGLPNUM_TYPENAME_ILLlib_getrows (p->lp, nrows, rowlist, rowcnt, rowbeg, rowind,
+												 rowval, rhs, sense, 0, names);
+	CHECKRVALG (rval, CLEANUP);
 
 CLEANUP:
 
@@ -3296,10 +3298,11 @@ EGLPNUM_TYPENAME_QSLIB_INTERFACE int EGLPNUM_TYPENAME_QSget_columns (
 		{
 			collist[j] = j;
 		}
-		rval = EGLPNUM_TYPENAME_ILLlib_getcols (p->lp, ncols, collist, colcnt, colbeg, colind,
-													 colval, obj, lower, upper, names);
-		CHECKRVALG (rval, CLEANUP);
 	}
+	/* without columns this hands back empty (NULL) arrays */
+	rval = EGLPNUM_TYPENAME_ILLlib_getcols (p->lp, ncols, collist, colcnt, colbeg, colind,
+												 colval, obj, lower, upper, names);
+	CHECKRVALG (rval, CLEANUP);
 
 CLEANUP:
 
